@@ -39,6 +39,10 @@ CHECKS = {
   text="Proof (monitor reasoning + ghost accounting of atomic operations, every interleaving): semaAcquire returns only after exactly one successful CompareAndSwap(addr, v, v-1) with v != 0 and performs no other write to the semaphore word (no acquire without a permit: the safety half of Mutex/RWMutex/WaitGroup built on it); semaRelease adds exactly one permit; waiter count only touched under its lock and every lock released on exit; notifyListAdd hands out ticket wait-1; notifyListWait returns only when its ticket has been notified (wrap-aware less(t, notify)); NotifyOne advances notify by at most one, NotifyAll stores once.",
   note="Not decided: go-statement lowering, atomics lowering tables and total order of atomics (hardware/LLVM memory model), every liveness clause (admission of waiters, wake-ups), Once/WaitGroup code of the standard library itself. Trusted: atomics indivisible, pthread mutual exclusion, getSemaState/getNotifyState return the unique non-nil state object.",
   ref="DESIGN.md §3 C11"),
+"C17": dict(
+  text="Proof (all inputs) for shellparse.Parse: every index is in range, the scan terminates, an error is never returned together with an argument list, nothing but freshly allocated memory is written. BOUNDED stand-in (labelled bounded, not counted as proved) for the round-trip clause: the real Parse and SplitPkgConfigFlags are run on every argument list whose documented quoted form has at most K characters (quick K=8: ~3*10^5 lists; thorough K=10) over an alphabet of letters, blank, tab, both quotes, backslash, '-', '$' and non-ASCII, and must split back to exactly the original list.",
+  note="Proof part trusts strings.Builder / unicode.IsSpace / []rune(string) contracts (contents not modelled). The round trip is decided only up to the bound. SplitPkgConfigFlags' index safety is covered by the bounded run only. NOT applicable: build-tag evaluation, $VAR/$(cmd) expansion, flag merging (library code outside the repository; oracle is the go tool).",
+  ref="DESIGN.md §3 C17"),
 "C18": dict(
   text="Proof that (*Loader).mergeConfig implements the property's merge law for EVERY field of targets.Config as it is in the working tree: the contract is generated from the struct type at check time (string: nearest non-empty definer wins; bool: or; []string: concatenation in order, element-wise; Name and *src unchanged; nothing else written). A field added and not merged, a dropped if, or replace-instead-of-append fails that field's obligation.",
   note="resolveInheritance/Load/HasInheritance/GetInherits are verified against generated contracts for the memory discipline of the fold (every mergeConfig call meets mergeConfig's separation preconditions: the result's lists are owned by the invocation, parents' lists are not; errors propagate; the name is kept). Not decided: the ORDER of the fold (parents in inherits order, then own) and the cyclic-parent clause (unbounded recursion on a cycle: see DESIGN.md §10); JSON decoding (encoding/json) trusted. Assumes dst's list arrays are disjoint from src's arrays and both objects (true in resolveInheritance where dst is fresh); strings compared by representation; Go append semantics trusted.",
